@@ -168,6 +168,9 @@ def oracle_expm(case, R):
         t40 = "[nonnormal-overscaling] " if (f40 and tol < e <= 10 * tol) else ""
         R.check(e <= tol, kind, f"{t40}{info} err={e:.3e} tol={tol:.3e} scipy_err={err_s:.2e}")
 
+    Afloat = A
+    A, lab_ = util.repack(Afloat, case.get("apack", "same"))      # documented: 2d ndarray (any dtype / layout)
+    R.label("A:" + lab_)
     with warnings.catch_warnings(record=True) as wl:
         warnings.simplefilter("always")
         e2, i2 = expmint.expmint(A, h)
@@ -286,7 +289,8 @@ def expm_cases(draw):
                   draw(st.sampled_from([1e4, 1e6, 3.15e7, 1e9, 1e12, 1e-6, 1e-9]))),
             "order": draw(st.sampled_from([0, 1])),
             "B": draw(st.sampled_from(["none", "matrix", "half"])), "ncolB": draw(st.integers(1, 3)),
-            "half_with_B": draw(st.booleans())}
+            "half_with_B": draw(st.booleans()),
+            "apack": draw(st.sampled_from(["same", "same", "same", "int", "fortran", "readonly"]))}
 
 
 # ---------------------------------------------------------------- SSModel
